@@ -96,7 +96,27 @@ func kClass(c Config) string {
 }
 
 func shapeKey(c Config) string {
-	return fmt.Sprintf("w=%d q=%d b=%s d=%s k=%s rest=%s share=%v subj=%d", c.W, c.Q, c.BClass, c.Dur, kClass(c), c.Rest, c.Share, c.NSubj)
+	k := fmt.Sprintf("w=%d q=%d b=%s d=%s k=%s rest=%s share=%v subj=%d", c.W, c.Q, c.BClass, c.Dur, kClass(c), c.Rest, c.Share, c.NSubj)
+	if c.Early != "" {
+		k += " stop-at-serve-start=" + c.Early
+	}
+	return k
+}
+
+var earlyModes = []string{"nowait", "gosched", "sleep"}
+
+// earlyConfig: Stop is called right after `go Serve()` (position 0 of the
+// stream, nothing received before it), without waiting for the subscription.
+func earlyConfig(rng *rand.Rand, w, q int, mode string, share bool, rep int) Config {
+	c := fill(rng, Config{W: w, Q: q, BClass: bClasses[rng.Intn(len(bClasses))], Dur: sweepDur[rng.Intn(len(sweepDur))], Share: share, Rep: rep})
+	if c.B > 60 {
+		c.BClass, c.B = "q+w+1", q+w+1
+	}
+	c.K = 0
+	c.Early = mode
+	c.EarlyN = 1 + rng.Intn(3)
+	c.EarlyUs = []int{1, 5, 20, 50, 100, 200}[rng.Intn(6)]
+	return c
 }
 
 // fill draws the secondary dimensions of a config.
@@ -176,6 +196,15 @@ func buildSweep(run *ev.Run) []Config {
 			c.K = pickK(rng, c)
 			add(c)
 		}
+		// 16 configs: every w x q once with Stop racing the start of Serve
+		off := rng.Intn(3)
+		n = 0
+		for _, w := range sweepW {
+			for _, q := range sweepQ {
+				add(earlyConfig(rng, w, q, earlyModes[(n+off)%3], rng.Intn(2) == 0, 0))
+				n++
+			}
+		}
 		return out
 	}
 	// thorough: full grid x handler mode x sharing x (all positions for tiny
@@ -217,6 +246,18 @@ func buildSweep(run *ev.Run) []Config {
 						c := fill(rng, Config{W: w, Q: q, BClass: "q+w+1", Dur: d, Share: share, Rep: rep})
 						c.K = []int{c.B, c.B, c.B - 1, c.B - 2}[rng.Intn(4)]
 						add(c)
+					}
+				}
+			}
+		}
+	}
+	// Stop racing the start of Serve: every w x q x mode x sharing, 5 repetitions
+	for rep := 0; rep < 5; rep++ {
+		for _, w := range sweepW {
+			for _, q := range sweepQ {
+				for _, m := range earlyModes {
+					for _, share := range []bool{false, true} {
+						add(earlyConfig(rng, w, q, m, share, rep))
 					}
 				}
 			}
@@ -395,7 +436,7 @@ var panicNorm = regexp.MustCompile(`0x[0-9a-fA-F]+|\d+`)
 
 func runC20(tier string, args []string) int {
 	run := ev.New("C20", tier, "exploration")
-	run.Rule("configuration sweep workers {1,2,4,8} x queue {1,2,8,64} x burst {1,q,q+w,q+w+1,2(q+w),10(q+w)} x handler {0,1ms,5ms,PRNG 0-3ms,gate released after Stop is called} x position of Stop (k of b double-flushed into the server's NATS client first; the rest published concurrently with Stop and/or after it returned; one extra request after Stop returned in every scenario) x server connection shared with an unrelated subscription or not x 1-2 subjects x arrival pattern; every scenario runs a real FNatsServer against an embedded nats-server in a child process; distinct = (w, q, burst class, handler mode, stop-position class, rest mode, sharing, subjects)")
+	run.Rule("configuration sweep workers {1,2,4,8} x queue {1,2,8,64} x burst {1,q,q+w,q+w+1,2(q+w),10(q+w)} x handler {0,1ms,5ms,PRNG 0-3ms,gate released after Stop is called} x position of Stop (incl. position 0 issued right after `go Serve()` without waiting for the subscription, with no / Gosched / 1-200us yields so that Stop is called both before and after Serve is parked; otherwise k of b double-flushed into the server's NATS client first; the rest published concurrently with Stop and/or after it returned; one extra request after Stop returned in every scenario) x server connection shared with an unrelated subscription or not x 1-2 subjects x arrival pattern; every scenario runs a real FNatsServer against an embedded nats-server in a child process; distinct = (w, q, burst class, handler mode, stop-position class, rest mode, sharing, subjects)")
 	run.Assume("embedded nats-server v2 routes a PUB to the subscribers' outbound queues before it answers the publisher's PING, and a connection's PONG follows the MSGs queued before it (the double flush defines 'received before Stop', as the pinned TestShutdown does on one connection)")
 	run.Assume("nats.go SubscribeSync/Pending/NextMsg on the collector connection and Flush are correct (reply collector)")
 	run.Assume("the recording processor is the only FProcessor; handler durations are finite (the gate is opened after Stop is called, never after it returns)")
@@ -608,6 +649,14 @@ func runC20(tier string, args []string) int {
 		}
 		if r.Config.Race {
 			run.Add("scenarios_under_race_binary", 1)
+		}
+		if r.Config.Early != "" {
+			run.Add("scenarios_stop_right_after_go_serve", 1)
+			if r.EarlySubs >= 0 && r.EarlySubs < r.WantSubs {
+				run.Add("scenarios_stop_called_before_serve_had_subscribed", 1)
+			} else {
+				run.Add("scenarios_stop_called_after_serve_had_subscribed", 1)
+			}
 		}
 		if r.StopMs > maxStop {
 			maxStop = r.StopMs
